@@ -28,6 +28,12 @@ def registry_run(ctx, args, name):
         e = events[b["l"] - 1]
         ctx.violation("%s ev=%s" % (b["what"], e["ev"]), "event %s rejected by Trace_Registry!%s" % (json.dumps(e)[:300], b["what"]),
                       {"kind": "registry-trace", "what": b["what"], "events": events[max(0, b["l"] - 40):b["l"] + 2]})
+    for c in v.get("unannounced", []):
+        ctx.violation("join-decision-never-announced-to-the-join-callback", "connection %s joined (or was refused) in the registry but OnJoinEvent never came" % c,
+                      {"kind": "registry-trace", "events": [e for e in events if e.get("c") == c or e.get("conn") == c][:40]})
+    for c in v.get("unleft", []):
+        ctx.violation("joined-connection-ended-without-leave-callback", "connection %s joined but OnLeaveEvent never came" % c,
+                      {"kind": "registry-trace", "events": [e for e in events if e.get("c") == c or e.get("conn") == c][:40]})
     if v["online"] != 0:
         ctx.violation("key-still-registered-after-all-connections-ended", "%d keys online at the end" % v["online"], {"kind": "registry-trace"})
     for e in events:
